@@ -216,7 +216,7 @@ class GVBase:
 
 def gen_gv(rng):
     """-> (global_vars, env pairs [[name, str(value)]], kind)"""
-    kind = rng.choice(['dict', 'dict', 'object', 'object', 'dictsub'])
+    kind = rng.choice(['dict', 'dict', 'object', 'object', 'dictsub', 'defaultdict'])
     k = rng.choice([0, 1, 2, 2, 3, 4, 5])
     names = rng.sample(DEF_NAMES, min(k, len(DEF_NAMES)))
     if kind != 'object' and rng.random() < 0.4:
@@ -226,6 +226,10 @@ def gen_gv(rng):
         gv = dict(vals)
     elif kind == 'dictsub':
         gv = type('GVDict', (dict,), {})(vals)
+    elif kind == 'defaultdict':
+        # a mapping with a `__missing__` hook: a name it does not CONTAIN is undefined all the same (and looking must not add it)
+        import collections
+        gv = collections.defaultdict(str, vals)
     else:
         names_ = list(vals)
         cls_attrs = {n: vals[n] for n in names_[::3]}
